@@ -963,6 +963,11 @@ func (self *Metadata) uncheckedReset() error {
 // started the job locally or queued it remotely.
 func (self *Metadata) restartQueuedLocal() error {
 	if self.exists(QueuedLocally) {
+		if st, _ := self.getState(); st == Complete {
+			// The job ran to completion before the job manager got to remove
+			// the marker.  Its work must not be discarded.
+			return self.remove(QueuedLocally)
+		}
 		if err := self.uncheckedReset(); err == nil {
 			util.PrintInfo("runtime", "(reset-running)   %s", self.fqname)
 			return nil
